@@ -67,6 +67,21 @@ Theorem C06_no_request_after_delivery : forall t s o, wf s -> received t s = tru
 Proof. exact no_grant_after_delivery. Qed.
 Print Assumptions C06_no_request_after_delivery.
 
+(* a poll touches only the txids it returns; what it did not return (cut short by max) stays
+   requestable from that peer *)
+Theorem C06_poll_touches_only_granted : forall n now T max chosen s t ok granted,
+  snd (step s (OGet n now T max chosen)) = RRequests ok granted -> ~ In t granted ->
+  lookup t (fst (step s (OGet n now T max chosen))) = lookup t s.
+Proof. exact poll_touches_only_granted. Qed.
+Print Assumptions C06_poll_touches_only_granted.
+
+Theorem C06_unreturned_stays_eligible : forall n now T max chosen s t ok granted, wf s ->
+  snd (step s (OGet n now T max chosen)) = RRequests ok granted ->
+  In t (eligible n now T s) -> ~ In t granted ->
+  In t (eligible n now T (fst (step s (OGet n now T max chosen)))).
+Proof. exact unreturned_stays_eligible. Qed.
+Print Assumptions C06_unreturned_stays_eligible.
+
 (* the invariants hold in every reachable state; received is permanent *)
 Theorem C06_reachable : forall ops, wf (fst (run [] ops)).
 Proof. intros ops. apply wf_run. constructor. Qed.
